@@ -1,5 +1,5 @@
 (** C17 - the visualisation server only discloses files under its roots. *)
-From SV Require Import Web.PathModel Web.Proofs.
+From SV Require Import Web.PathModel Web.Proofs Web.History.
 
 (** POST (after fix F2): whatever a request that passes the root check makes its
     route read - the file for /script and /lineage, the listed folder for
@@ -34,6 +34,25 @@ Theorem c17_resolve_cancel : forall a x b acc,
   normal_seg x -> resolve_segs acc (a ++ x :: ".." :: b) = resolve_segs acc (a ++ b).
 Proof. intros; apply resolve_segs_cancel; assumption. Qed.
 Print Assumptions c17_resolve_cancel.
+
+(** Histories: the application object serves many requests, and its root ([app.root_path]) and the process
+    working directory may be re-assigned between them.  Whatever any request of any history may read lies under
+    the root configured when THAT request arrives (resolved against the working directory of that moment) - an
+    earlier root grants nothing. *)
+Theorem c17_history_contained : forall s ops st t,
+  In (st, DPass t) (wrun s ops) ->
+  touched_contained (w_cwd st) (w_root st) t /\
+  exists pre r rest, ops = pre ++ WPost r :: rest /\ st = wstate_after s pre.
+Proof. exact history_contained. Qed.
+Print Assumptions c17_history_contained.
+
+Theorem c17_history_answers_are_stateless : forall s pre r rest,
+  exists before after,
+    wrun s (pre ++ WPost r :: rest) =
+      before ++ (wstate_after s pre, post (w_cwd (wstate_after s pre)) (w_root (wstate_after s pre)) r) :: after
+    /\ before = wrun s pre.
+Proof. exact history_answers_are_stateless. Qed.
+Print Assumptions c17_history_answers_are_stateless.
 
 (** Non-vacuity: a request with dot segments that passes, and what it touches. *)
 Example c17_nonvacuous :
